@@ -126,6 +126,20 @@ def run(tier):
                 suite.identity('snake.evaluated[%s]%s' % (nm, dx), entries(mat(F(d))), entries(mat(want)), extra=free(A),
                                functions=['tensor.Functor.__call__', fq + 'cups', fq + 'caps'],
                                what='cups and caps produced by a tensor functor are Tensor.cups / caps of the images; both snakes evaluate to the identity')
+    # the dagger of a box stays the conjugate transpose after its entries were substituted (a tensor box keeps its array and
+    # a flag; the flag must survive subs)
+    with suite.guard('dagger after substitution', ['tensor.Functor.__call__', 'cat.Box.subs']):
+        px, py = sympy.Symbol('px', real=True), sympy.Symbol('py', real=True)
+        fb = _t.Box('f', Dim(2), Dim(3), [px, 2, 3 * sympy.I, 4, py, 1 - 2 * sympy.I * px])
+        for nm, dg in (('f.dagger().subs', fb.dagger().subs(px, 7)), ('(v >> f).dagger().subs', (_t.Box('v', Dim(1), Dim(2), [1, py]) >> fb).dagger().subs(px, 7)),
+                       ('f.dagger().dagger().subs', fb.dagger().dagger().subs(px, 7))):
+            ref = {'f.dagger().subs': lambda: fb.subs(px, 7).eval().dagger(),
+                   '(v >> f).dagger().subs': lambda: (_t.Box('v', Dim(1), Dim(2), [1, py]) >> fb).subs(px, 7).eval().dagger(),
+                   'f.dagger().dagger().subs': lambda: fb.subs(px, 7).eval()}[nm]()
+            got = dg.eval()
+            suite.fact('dagger.after_subs.type[%s]' % nm, (got.dom, got.cod) == (ref.dom, ref.cod), functions=['cat.Box.subs'])
+            suite.identity('dagger.after_subs[%s]' % nm, entries(mat(got)), entries(mat(ref)), extra=(py,), functions=['cat.Box.subs', 'tensor.Functor.__call__'],
+                           what='substitution keeps the dagger: the evaluation is the conjugate transpose of the substituted box')
     # wires of dimension one: a box whose image is a scalar although its domain and codomain have different numbers of wires
     # (m : s @ s -> s, cups and caps on s) must not disturb the boxes to its right -- tensor is the Kronecker product and
     # composition the matrix product also around the empty type
